@@ -163,13 +163,17 @@ def configure_union_passthrough(union: Any, converter: BaseConverter) -> None:
     def make_structure_native_union(exact_type: Any) -> Callable:
         # `exact_type` is likely to be a subset of the entire configured union (`args`).
         literal_values = {
-            v for t in exact_type.__args__ if is_literal(t) for v in t.__args__
+            (v.__class__, v)
+            for t in exact_type.__args__
+            if is_literal(t)
+            for v in t.__args__
         }
 
         # We have no idea what the actual type of `val` will be, so we can't
         # use it blindly with an `in` check since it might not be hashable.
         # So we do an additional check when handling literals.
-        # Note: do no use `literal_values` here, since {0, False} gets reduced to {0}
+        # Note: do no use `literal_values` here, since {0, False} gets reduced to {0}.
+        # (Literal values are kept together with their class for the same reason.)
         literal_classes = {
             v.__class__
             for t in exact_type.__args__
@@ -212,7 +216,7 @@ def configure_union_passthrough(union: Any, converter: BaseConverter) -> None:
                 converter=converter,
                 spillover=spillover_type,
             ) -> exact_type:
-                if val.__class__ in literal_classes and val in vals:
+                if val.__class__ in literal_classes and (val.__class__, val) in vals:
                     return val
                 if val.__class__ in classes:
                     return val
@@ -223,7 +227,7 @@ def configure_union_passthrough(union: Any, converter: BaseConverter) -> None:
             def structure_native_union(
                 val: Any, _: Any, classes=non_literal_classes, vals=literal_values
             ) -> exact_type:
-                if val.__class__ in literal_classes and val in vals:
+                if val.__class__ in literal_classes and (val.__class__, val) in vals:
                     return val
                 if val.__class__ in classes:
                     return val
